@@ -266,6 +266,15 @@ pub fn scenario(g: &mut G, ctx: &RunCtx) -> RunReport {
         }
         fields.push(Field { name, raw });
     }
+    // (no draw) a list-valued Content-Length on a response without a body (`0, 0`): a client may refuse it; one
+    // that takes it reports the field as it was sent, like every other field
+    let cl_list = !chunked_te && nfields >= 2 && status % 11 == 5 && !(100..200).contains(&status);
+    if cl_list {
+        let at = fields.len() / 2;
+        fields.insert(at, Field { name: "Content-Length".to_string(), raw: b"0, 0".to_vec() });
+        g.probe("list-valued-content-length");
+    }
+    let nfields = if cl_list { nfields + 1 } else { nfields };
     // (no draw) more field lines than the header map has slots for *names* (2^15), spread over a handful of
     // names, under a limit raised above that: all of them are within the caller's limit and must be reported
     let drawn_fields = fields.len();
@@ -317,7 +326,12 @@ pub fn scenario(g: &mut G, ctx: &RunCtx) -> RunReport {
     }
     let (segs, seg_name) = gen::segmentation(g, wire.len(), &targets);
     let script = Script::from_wire(&wire, &segs, End::Fin);
-    let faults = ConnFaults { window: 65536, coalesce: g.chance(1, 4), ..Default::default() };
+    let mut faults = ConnFaults { window: 65536, coalesce: g.chance(1, 4), ..Default::default() };
+    // (no draw) a read of the head interrupted by a signal now and then: retried, nothing is lost
+    if (status as usize + head_len) % 3 == 0 {
+        faults.read_eintr = vec![(head_len % 7) as u64, (head_len % 7 + 2 + status as usize % 5) as u64];
+        g.probe("head-read-interrupted");
+    }
     let use_split = g.chance(1, 3);
     // the status helpers must agree with the code itself
     let use_efs = g.chance(1, 4);
@@ -377,7 +391,7 @@ pub fn scenario(g: &mut G, ctx: &RunCtx) -> RunReport {
         Some(Err(m)) => violation("panic", m.clone()),
         Some(Ok(Err(e))) if e.starts_with("helper:") => violation("status-helper-disagrees", e.clone()),
         Some(Ok(Err(e))) => {
-            if over || lf_status {
+            if over || lf_status || cl_list {
                 Verdict::Pass
             } else {
                 violation(format!("valid-head-rejected:{}", e), format!("send() failed with {} for a valid head: {} fields (limit {}), head {} bytes, status {}", e, nfields, limit, head_len, status))
